@@ -72,6 +72,11 @@ def run_and_check(mon, case, order, variant):
     tr = runs.run_case(case, order, mon)
     mon.count("runs")
     if tr.ctor_crash:
+        if case.get("model") == "real" and type(tr.crashed).__name__ == "ModelFittingError":
+            # botorch could not fit hyper-parameters to the synthetic dataset (structureless random values on a grid): like a
+            # collapsed fit this is a property of the dataset the harness invented, not of the run logic — counted, not judged
+            mon.count("degenerate_gp_fit_runs")
+            return tr
         mon.violation(f"crash:ctor:{type(tr.crashed).__name__}:{variant}", f"{variant}/{case['cone']}: constructor raised {tr.crashed!r}", runs.case_public(case))
         return tr
     runchecks.check_accounting(mon, tr)
@@ -167,6 +172,9 @@ def shard(mon, tier, rng, shard_no, nshards):
             mon.count("Kgtm_runs")
         if case["batch"] > 1 and any(case["batch"] > len(st["pre"][0] | (st["pre"][1] or set())) for st in tr.steps if st["pre"][1] is not None):
             mon.count("batch_gt_active_runs")
+        if tr.ctor_crash and case.get("model") == "real" and type(tr.crashed).__name__ == "ModelFittingError":
+            mon.count("degenerate_gp_fit_runs")  # see run_and_check
+            continue
         if tr.ctor_crash:
             mon.violation(f"crash:ctor:{type(tr.crashed).__name__}:{variant}", f"{variant}/{case['cone']}: constructor raised {tr.crashed!r}", runs.case_public(case))
             continue
